@@ -106,7 +106,7 @@ impl VWorld {
                 pf_id,
                 owner.clone(),
                 &margined_perp::margined_pricefeed::InstantiateMsg {
-                    oracle_hub_contract: "x".into(),
+                    oracle_hub_contract: "oracle_hub".into(),
                 },
                 &[],
                 "pf",
@@ -118,7 +118,7 @@ impl VWorld {
                 rpf_id,
                 owner.clone(),
                 &margined_perp::margined_pricefeed::InstantiateMsg {
-                    oracle_hub_contract: "x".into(),
+                    oracle_hub_contract: "oracle_hub".into(),
                 },
                 &[],
                 "rpf",
